@@ -2,7 +2,8 @@
 # run_all.sh [tier]: every registered check on the current (clean) tree, in sequence; refreshes evidence/*.json
 cd "$(dirname "$0")/.."
 tier="${1:-quick}"
-git -C /repo status --porcelain --untracked-files=no | grep -q . && { echo "/repo has tracked changes"; exit 2; }
+R="${LHASA_REPO:-/repo}"
+git -C "$R" status --porcelain --untracked-files=no | grep -q . && { echo "$R has tracked changes"; exit 2; }
 for p in $(python3 -c "import json;print(' '.join(c['property_id'] for c in json.load(open('MANIFEST.json'))['checks']))"); do
   s=$(date +%s)
   python3 check.py $p --tier $tier > /tmp/runall-$p.log 2>&1; rc=$?
